@@ -17,12 +17,28 @@ def build(case):
     heap = [[] for _ in case['heap']]
 
     def val(v):
+        if isinstance(v, dict) and 'view' in v:
+            return VIEW
         if isinstance(v, dict):
             return heap[v['ref']]
         return v
     for obj, items in zip(heap, case['heap']):
         obj.extend(val(x) for x in items)
     return heap, {k: val(v) for k, v in case['ctx']}
+
+
+VIEW = object()      # placeholder for a context value that is a live view of the context
+
+
+def bind_views(mapping):
+    """replace the placeholders by a function that reads `mapping` itself when called — what a lambda
+    made by an earlier !py, or a function of an earlier py block, is: a live view of the context"""
+    def peek(k):
+        return mapping.get(k)
+    for k, v in list(dict.items(mapping)):
+        if v is VIEW:
+            dict.__setitem__(mapping, k, peek)
+    return mapping
 
 
 class Canon:
@@ -177,7 +193,7 @@ def _run_eval_case(case):
     from pypyr.context import Context
     import pypyr.steps.pyimport as pyimport
     heap, cdict = build(case)
-    ctx = Context(cdict)
+    ctx = bind_views(Context(cdict))
     before = snapshot(ctx)
     import_error = None
     srcs, raw, plain_now = [], [], []
@@ -212,6 +228,7 @@ def _run_eval_case(case):
     # import sources seen so far, in order, into a fresh namespace and evals the expression in a fresh
     # {**that namespace, **dict(context as it is now)} — context first, then imports, then builtins
     heap2, cdict2 = build(case)
+    bind_views(cdict2)
     obs['oracle_import_error'] = None
     pl, ran, keys_at_eval = [], [], []
     for st in case_steps(case):
@@ -245,7 +262,7 @@ def _run_exec_case(case):
     from pypyr.context import Context
     import pypyr.steps.py as pystep
     heap, cdict = build(case)
-    ctx = Context(cdict)
+    ctx = bind_views(Context(cdict))
     src = L.render_block(case['block'])
     ctx['py'] = src
     before = snapshot(ctx)
@@ -257,7 +274,34 @@ def _run_exec_case(case):
     after = snapshot(ctx)
     obs = finish(case, heap, ctx, raw, before, after)
     obs['src'] = [src]
+    obs['plain_ctx'] = [[k, plain(v)] for k, v in after]
+    obs['oracle'] = exec_oracle(case, src)
     return obs
+
+
+def exec_oracle(case, src):
+    """Plain Python, from the statement: exec the block over a copy of the context as its variables, with
+    `save` a function that writes the REAL mapping at the moment it is called (positional names are looked
+    up in the block's namespace, keywords taken as given).  Returns the outcome class and the mapping."""
+    heap2, cdict2 = build(case)
+    octx = bind_views(dict(cdict2))
+    octx['py'] = src
+    ns = dict(octx)
+    ns['__builtins__'] = builtins.__dict__
+
+    def save(*args, **kwargs):
+        d = {}
+        for a in args:
+            d[a] = ns[a]
+        d.update(kwargs)
+        octx.update(d)
+    ns['save'] = save
+    try:
+        exec(src, ns)
+        out = 'ok'
+    except Exception as e:   # noqa
+        out = type(e).__name__
+    return {'outcome': out, 'ctx': [[k, plain(v)] for k, v in octx.items()]}
 
 
 def finish(case, heap, ctx, raw, before, after):
